@@ -242,6 +242,9 @@ def run(prog: Program, chk: Check):
                 continue
             t = ifs_[0].test
             txt = norm(t)
+            for k_, v_ in tabs.items():  # `o = table.get(name)` / `if o is not None:` (a hoisted assignment expression)
+                if txt == f"{k_} is not None":
+                    txt = f"{v_} is not None"
             for k_, v_ in tabs.items():
                 txt = txt.replace(f"{k_}.get(", f"{v_}.get(").replace(f" in {k_}", f" in {v_}")
             tab = f"getattr(self, {l1.target.id})"
@@ -483,7 +486,14 @@ def run(prog: Program, chk: Check):
         # the function holding the range test for this registry: the storing handler, or the message id validator
         holders = []
         for f_ in par.methods.values():
-            for p_ in [p for p in f_.params() if p != "self"]:
+            cands_ = [p for p in f_.params() if p != "self"]
+            # ... or the local that is stored (a validator expanded into the handler tests a local of the handler)
+            for n_, t_ in table_stores(C.build(f_.node), table_):
+                v_ = n_.ast.value
+                for a_ in (v_.args if isinstance(v_, ast.Call) else []):
+                    if isinstance(a_, ast.Name) and a_.id not in cands_:
+                        cands_.append(a_.id)
+            for p_ in cands_:
                 sh_ = validator_shape(f_, table_, ID_TABLES[table_], p_)
                 if sh_["range"] is not None:
                     stores_here = any(True for _ in table_stores(sh_["cfg"], table_))
